@@ -416,8 +416,28 @@ pub fn diff_exact(a: &Decoded, b: &Decoded) -> Option<(String, String, String)> 
             for r in s.rows.iter_mut() {
                 r.s = r.s.map(map);
             }
-            for c in s.cols.iter_mut() {
-                c.style = c.style.map(map);
+            // <col> spans are split and merged freely; the style of xf 0 is no style
+            let default_fp = fp.first().cloned().unwrap_or(0);
+            let mut cols = s.cols.clone();
+            for c in cols.iter_mut() {
+                c.style = c.style.map(map).filter(|f| *f != default_fp);
+            }
+            cols.sort_by_key(|c| c.min);
+            let mut merged: Vec<pyworker::DCol> = Vec::new();
+            for c in cols {
+                match merged.last_mut() {
+                    Some(l) if l.max.map(|m| m + 1) >= c.min && l.width == c.width && l.hidden == c.hidden && l.style == c.style && l.custom_width == c.custom_width && l.best_fit == c.best_fit => {
+                        l.max = l.max.max(c.max);
+                    }
+                    _ => merged.push(c),
+                }
+            }
+            s.cols = merged;
+            for r in s.rows.iter_mut() {
+                r.s = r.s.filter(|f| *f != default_fp);
+                if r.s.is_none() {
+                    r.custom_format = false;
+                }
             }
             s.dimension = None;
             for r in s.rows.iter_mut() {
